@@ -224,7 +224,8 @@ theorem linkInv_new (connId now : Nat) : LinkInv (FLink.newRegistering connId no
   · show WINDOW_INIT ≤ 60000
     omega
 
-/-- **One event keeps the accounting invariant on every link** (all seven event constructors). -/
+/-- **One event keeps the accounting invariant on every link** (every event constructor, `Ev.reload` included:
+`Arm.reload`, `Closed.fresh`). -/
 theorem linkInv_step (s : Sys F) (e : Ev) (h : All LinkInv s.links) : All LinkInv (step s e).1.links :=
   step_all s e (fun _ _ => linkInv_closed _ _ _) h
 
